@@ -204,6 +204,11 @@ def run(ctx):
     if not seen:
         raise MachineryFailure("binding control: corrupted multi-grouper record accepted")
     ctx.add_traces(len(lines), stats, name="TraceMulti")
+    from . import compose
+
+    # Flox.tla behaviours with TWO groupers (labels found or requested unsorted, every strategy / reindex setting): the label
+    # grid and every cell as the composed specification (Factorize!RavelFactorized + the strategies of Aggs.tla) says
+    compose.replay(ctx, {"compose:result", "compose:labels"}, n=1200 if ctx.tier == "quick" else 30000, only=lambda b: bool(b["cfg"].get("two")))
     ctx.sample(lines[0])
     ctx.sample(lines[len(lines) // 2])
     ctx.cov["rule"] = ("(1-3 groupers, each categorical (requested label sets incl. unsorted/subset) or binned (edges {0,2,5} / {0,1,3,5}, closed right or left, as bin "
